@@ -125,7 +125,12 @@ func (x *Exec) checkSinks(e *ast.CallExpr, st *State, calleeShort string, args [
 				pat = pat[:i]
 			}
 		}
-		if !(calleeShort == pat || strings.HasSuffix(calleeShort, "."+pat) || strings.HasSuffix(calleeShort, ")."+pat)) {
+		if strings.HasSuffix(pat, "*") {
+			// `pkg/path.Prefix*`: every function of that package whose name starts so
+			if !strings.HasPrefix(calleeShort, pat[:len(pat)-1]) {
+				continue
+			}
+		} else if !(calleeShort == pat || strings.HasSuffix(calleeShort, "."+pat) || strings.HasSuffix(calleeShort, ")."+pat)) {
 			continue
 		}
 		if wantOrd > 0 && x.callOrdinal(e, pat) != wantOrd {
